@@ -187,6 +187,10 @@ def check(prog, rep):
     from .c13 import duration_dispatch
 
     duration_dispatch(prog, rep)
+    # the window is last.timestamp + last.duration + pulsetime: instant arithmetic only because Event keeps timestamps in UTC
+    from .c13 import normalisation
+
+    normalisation(prog, rep)
     # nothing on the way is memoised on a key that does not determine the answer
     from ..rules_own import memo_rule
 
